@@ -32,6 +32,7 @@ FLOORS = {'quick': {'nontrivial': 100, 'runs_checked': 150,
 SIZES = {'quick': 64, 'thorough': 600}
 TIMEOUT = {'quick': 170, 'thorough': 1700}
 HANDOVERS = {'quick': 16, 'thorough': 150}
+SPLITS = {'quick': 24, 'thorough': 240}
 PAIRS = {'applying_evolution': 'applied_evolution',
          'applying_migration': 'applied_migration',
          'creating_models': 'created_models'}
@@ -46,7 +47,9 @@ def plan(tier, seed):
     return [{'mode': 'upgrade', 'seed': es, 'i': i}
             for i in range(SIZES[tier])] + \
         [{'mode': 'handover', 'seed': es, 'i': i}
-         for i in range(HANDOVERS[tier])]
+         for i in range(HANDOVERS[tier])] + \
+        [{'mode': 'split', 'seed': es, 'i': i}
+         for i in range(SPLITS[tier])]
 
 
 def worker_setup():
@@ -278,7 +281,75 @@ def run_handover(desc):
     return h, res, (case, S.canon([b['key'], start, 'handover']))
 
 
+def run_split(desc):
+    """Projects of the C09 migration pool (evolutions of one app separated
+    by migrations they have to wait for): what applying_evolution /
+    applied_evolution carry must be the evolutions whose SQL runs between
+    them.  Fault-free runs only."""
+    import re
+    from . import c09_pipeline as P
+    rng = seqcase.rng_for('C17s', desc['seed'], desc['i'])
+    g = P.gen_mig_cross(rng) if desc['i'] % 3 == 2 else P.gen_mig(rng)
+    key = S.canon(['split', desc['seed'], desc['i']])
+    proj = projlab.Project()
+    items, stats = [], {'split_projects': 1}
+    try:
+        up, err = P.write_and_install(proj, g)
+        if up is None:
+            return {'key': key, 'nontrivial': False, 'items': [],
+                    'stats': {'skipped_setup_failed': 1}, 'case': None}
+        ev = proj.run('evolve_api', **up)
+    finally:
+        proj.cleanup()
+    if ev.get('driver_error') or not ev['outcome']['ok']:
+        return {'key': key, 'nontrivial': False, 'items': [],
+                'stats': {'skipped_clean_failed': 1}, 'case': None}
+    have = {a: set(range(1, g['applied_e'][a] + 1)) for a in g['eapps']}
+    cur, introduced, temp = None, set(), None
+    pairs = 0
+    for e in ev['events']:
+        if e['kind'] == 'signal' and e['name'] == 'applying_evolution':
+            cur, introduced = e, set()
+        elif e['kind'] == 'signal' and e['name'] == 'applied_evolution' \
+                and cur is not None:
+            pairs += 1
+            app = cur.get('app')
+            payload = sorted(x[1] for x in cur.get('evolutions') or []
+                             if x[0] == app)
+            executed = sorted('e%d' % k for k in introduced)
+            stats['payloads_checked'] = stats.get('payloads_checked', 0) + 1
+            if payload != executed:
+                items.append({'type': 'PAYLOAD_NOT_WHAT_WAS_EXECUTED',
+                              'phase': 'clean', 'app': app,
+                              'payload': payload, 'executed': executed,
+                              'app_split_over_batches': True})
+            have.setdefault(app, set()).update(introduced)
+            cur = None
+        elif e['kind'] == 'sql' and cur is not None and e.get('ok') and \
+                e.get('mutating'):
+            app = cur.get('app')
+            m = re.match(r'\s*ALTER TABLE "%s_m" ADD COLUMN "x(\d)"' % app,
+                         e['sql'])
+            if m:
+                introduced.add(int(m.group(1)))
+            elif e['sql'].lstrip().startswith('CREATE TABLE "TEMP_TABLE"'):
+                temp = set(int(x) for x in re.findall(r'"x(\d)"', e['sql']))
+            elif re.match(r'\s*ALTER TABLE "TEMP_TABLE" RENAME TO "%s_m"'
+                          % app, e['sql']) and temp is not None:
+                introduced |= temp - have.get(app, set())
+                temp = None
+    return {'key': key, 'nontrivial': pairs > 0, 'items': items,
+            'stats': stats, 'weight': max(1, pairs),
+            'nontrivial_weight': pairs,
+            'case': {'split': True, 'applied_e': g['applied_e'],
+                     'nevo': g['nevo'],
+                     'evo_deps': {'%s:%s:%s' % k: v
+                                  for k, v in g['evo_deps'].items()}}}
+
+
 def run_case(desc):
+    if desc.get('mode') == 'split':
+        return run_split(desc)
     if desc.get('mode') == 'handover':
         h, res, extra = run_handover(desc)
         if h is None:
